@@ -1071,6 +1071,10 @@ class Frame:
         if isinstance(n.slice, ast.Slice):
             s = n.slice
             lo, hi, st = (self.ex(x) if x is not None else NONE for x in (s.lower, s.upper, s.step))
+            if b[0] == 'indexer' and b[1] == 'iloc' and b[2][0] == 'table' and st == NONE:
+                # df.iloc[a:b] selects the same rows as df.iloc[range(a, b)]
+                k = ('sl', lo if lo != NONE else C(0), hi, NONE)
+                return ('table', tuple((c, T.index(v, ('rowsel', k))) for c, v in b[2][1]), T.call('count', (k,)))
             if b[0] == 'indexer':
                 return T.call('rowslice', (b[2], lo, hi, st))
             return T.slice_(b, lo, hi, st)
@@ -1221,6 +1225,8 @@ class Frame:
             t = t[1]
         if t[0] == 'keys' and t[1] is not None:
             t = ('list', tuple(C(k) for k in t[1]))
+        if t[0] == 'dict' and all(not isinstance(k, tuple) for k, _ in t[1]):
+            t = ('list', tuple(C(k) for k, _ in t[1]))          # iterating a dictionary visits its keys
         if t[0] in ('list', 'tuple') and len(t[1]) <= (40 if all(T.isconst(x) for x in t[1]) else 12):
             return list(t[1])
         self._pre[id(it_node)] = t0        # evaluated once: reused when the loop is summarised symbolically
